@@ -2127,7 +2127,11 @@ const (
 
 // Format formats the node.
 func (node *JoinTableExpr) Format(buf *TrackedBuffer) {
-	buf.Myprintf("%v %s %v%v", node.LeftExpr, node.Join, node.RightExpr, node.Condition)
+	strategy := ""
+	if node.Strategy != "" && node.Strategy != UndefinedJoinStrategy {
+		strategy = node.Strategy + " "
+	}
+	buf.Myprintf("%v %s%s %v%v", node.LeftExpr, strategy, node.Join, node.RightExpr, node.Condition)
 }
 
 func (node *JoinTableExpr) walkSubtree(visit Visit) error {
